@@ -12,6 +12,7 @@ pub mod c06;
 pub mod c07;
 pub mod c08;
 pub mod c09;
+pub mod c09_layers;
 pub mod c09_recipe;
 pub mod c10;
 pub mod c11;
